@@ -41,6 +41,7 @@ pub struct Ctx {
 
     next_id: u64,
     cur_id: u64,
+    tick: u64,
     pub evaluations: u64,
     pub events: u64,
     distinct: HashSet<u64>,
@@ -199,6 +200,7 @@ impl Ctx {
             verbose,
             next_id: 0,
             cur_id: 0,
+            tick: 0,
             evaluations: 0,
             events: 0,
             distinct: HashSet::new(),
@@ -209,6 +211,12 @@ impl Ctx {
             violations: BTreeMap::new(),
             started: std::time::Instant::now(),
         }
+    }
+
+    /// deterministic subsampling helper: true once every `n` calls
+    pub fn every(&mut self, n: u64) -> bool {
+        self.tick += 1;
+        self.tick % n == 0
     }
 
     pub fn thorough(&self) -> bool {
